@@ -6,10 +6,13 @@ cd "$WT" || exit 2
 export CARGO_NET_OFFLINE=true CARGO_TARGET_DIR="$WT/target"
 [ -f SEEDED/patch.diff ] && [ -f tests/seeded_demo.rs ] || { echo "$ID: deliverables missing"; exit 2; }
 FEAT=""; grep -q 'feature = "protobuf"\|protobuf' SEEDED/meta.json 2>/dev/null && FEAT="--features protobuf"
+grep -q "descriptive-deserialize-errors" SEEDED/meta.json 2>/dev/null && FEAT="--features descriptive-deserialize-errors"
 with=$(cargo nextest run --workspace --no-fail-fast --offline --test-threads 8 $FEAT 2>&1 | grep -E "^\s+FAIL" | sed 's/.*\] *//' | sort -u)
 other=$(echo "$with" | grep -v "generate::walker::tests::" | grep -v "seeded_demo" | grep -v '^$')
 demo_fail=$(echo "$with" | grep -c "seeded_demo")
-git stash push -q -- src asn1rs-model/src asn1rs-macros/src 2>/dev/null
+# (no git stash: the stash is shared between the worktrees of a repository)
+git diff -- src asn1rs-model/src asn1rs-macros/src > "$WT/.verify-own.diff"
+git apply -R "$WT/.verify-own.diff"
 without=$(cargo nextest run --offline --test seeded_demo $FEAT 2>&1 | grep -E "Summary|^\s+FAIL" | tr '\n' ' ')
-git stash pop -q
+git apply "$WT/.verify-own.diff"; rm -f "$WT/.verify-own.diff"
 echo "$ID: other-failures-with-change=[$(echo $other)] demo-failing-tests-with-change=$demo_fail without-change: $without"
